@@ -1210,6 +1210,19 @@ pub fn gen_fn(rng: &mut Rng, version: u32, idx: u32, small: bool) -> GenFn {
         for _ in 0..k {
             items.push(LineItem::Line(start + rng.below(6) as u32));
         }
+        // a statement spread over several lines whose code returns to its first line: the block
+        // lists that line again (A, B, A – LLVM only suppresses consecutive repeats); each listing
+        // registers the block once more for the line (`lines_to_block`)
+        if rng.chance(1, 4) {
+            if let (Some(LineItem::Line(a)), Some(LineItem::Line(b))) = (items.get(1).cloned(), items.last().cloned()) {
+                let a2 = if a == b { items.push(LineItem::Line(a + 1)); a } else { a };
+                items.push(LineItem::Line(a2));
+                if rng.chance(1, 3) {
+                    items.push(LineItem::Line(a2 + 2));
+                    items.push(LineItem::Line(a2));
+                }
+            }
+        }
         if rng.chance(1, 5) {
             items.push(LineItem::File(b"other.h".to_vec()));
             items.push(LineItem::Line(rng.range(1, 5) as u32));
@@ -1355,6 +1368,108 @@ pub fn gen_loop_fn(rng: &mut Rng, idx: u32, nlines: u32, file: &[u8]) -> GenFn {
     }
 }
 
+/// Names that are not UTF-8 (since /repo 7f9b2b3 `read_string` decodes them lossily): give some
+/// functions ill-formed names / file names; the LINES records of such a function name its file
+/// either by the same bytes or by DIFFERENT ill-formed bytes that decode to the same string (the
+/// reader compares decoded names); now and then two functions of one file get names that differ
+/// as bytes and collide after decoding. Returns true when something was changed.
+pub fn mangle_names(rng: &mut Rng, fns: &mut [GenFn]) -> bool {
+    const BAD_FILES: &[(&[u8], &[u8])] = &[
+        (b"dir/\xe9.c", b"dir/\xe8.c"),       // latin-1 bytes: both decode to dir/U+FFFD.c
+        (b"a\xff.c", b"a\xfe.c"),
+        (b"\xc3(.c", b"\xc3(.c"),
+        (b"src/\xf0\x9f\x98.c", b"src/\xf0\x9f\x99.c"), // truncated 4-byte sequence: one U+FFFD
+        (b"x\xed\xa0\x80.c", b"x\xed\xa0\x80.c"),        // a surrogate: three U+FFFD
+    ];
+    const BAD_NAMES: &[(&[u8], &[u8])] = &[(b"f\xff", b"f\xfe"), (b"\x80g", b"\xbfg"), (b"h\xc0\xaf", b"h\xc0\xaf"), (b"caf\xe9", b"caf\xe8")];
+    let mut changed = false;
+    let mut k = 0;
+    while k < fns.len() {
+        if rng.chance(1, 2) {
+            let (a, b) = *rng.pick(BAD_FILES);
+            let old = fns[k].file.clone();
+            fns[k].file = a.to_vec();
+            let other = rng.chance(1, 2);
+            for (_, items) in fns[k].lines.iter_mut() {
+                for it in items.iter_mut() {
+                    if let LineItem::File(x) = it {
+                        if *x == old {
+                            *x = if other { b.to_vec() } else { a.to_vec() };
+                        }
+                    }
+                }
+            }
+            changed = true;
+        }
+        if rng.chance(1, 2) {
+            let (a, b) = *rng.pick(BAD_NAMES);
+            fns[k].name = a.to_vec();
+            // a second function of the same file whose name collides after decoding
+            if k + 1 < fns.len() && rng.chance(1, 3) {
+                let (file, old) = (fns[k].file.clone(), fns[k + 1].file.clone());
+                fns[k + 1].name = b.to_vec();
+                fns[k + 1].file = file.clone();
+                for (_, items) in fns[k + 1].lines.iter_mut() {
+                    for it in items.iter_mut() {
+                        if let LineItem::File(x) = it {
+                            if *x == old {
+                                *x = file.clone();
+                            }
+                        }
+                    }
+                }
+                k += 1;
+            }
+            changed = true;
+        }
+        k += 1;
+    }
+    changed
+}
+
+/// the same records with every counter zero: a run that executed nothing
+pub fn zeroed(d: &Gcda) -> Gcda {
+    let mut z = d.clone();
+    for r in z.recs.iter_mut() {
+        if let DRec::Arcs { vals, .. } = r {
+            for v in vals.iter_mut() {
+                *v = 0;
+            }
+        }
+    }
+    z
+}
+
+/// the four stamp bytes in big-endian spelling order (`408*`), from a buffer of either byte order
+pub fn stamp_spelling(b: &[u8]) -> Option<[u8; 4]> {
+    if b.len() < 8 {
+        return None;
+    }
+    match &b[..4] {
+        b"oncg" | b"adcg" => Some([b[7], b[6], b[5], b[4]]),
+        b"gcno" | b"gcda" => Some([b[4], b[5], b[6], b[7]]),
+        _ => None,
+    }
+}
+
+/// the stamps compilers write (Lean `stampCanon`): `d0d*` with d <= 8, `A9d*`, `Bdd*`..`Zdd*`
+pub fn stamp_canonical(s: &[u8; 4]) -> bool {
+    let dig = |c: u8| c.is_ascii_digit();
+    s[3] == b'*'
+        && dig(s[2])
+        && dig(s[1])
+        && ((dig(s[0]) && s[0] <= b'8' && s[1] == b'0') || (s[0] == b'A' && s[1] == b'9') || (b'B'..=b'Z').contains(&s[0]))
+}
+
+/// `get_version` on a spelling (None when the last byte is not `*`), u8 wrapping arithmetic
+pub fn stamp_number(s: &[u8; 4]) -> Option<u32> {
+    if s[3] != b'*' {
+        return None;
+    }
+    let d = |c: u8| c.wrapping_sub(b'0') as u32;
+    Some(if s[0] >= b'A' { 100 * (s[0] - b'A') as u32 + 10 * d(s[1]) + d(s[2]) } else { 10 * d(s[0]) + d(s[2]) })
+}
+
 /// counts of `walks` random walks from the entry to the exit: per arc; flow-consistent by
 /// construction (the virtual arc carries `walks`)
 pub fn gen_flow(rng: &mut Rng, f: &GenFn, walks: u64, scale: u64) -> Vec<u64> {
@@ -1428,7 +1543,7 @@ pub fn single_block_lines(f: &GenFn, flow: &[u64], version: u32) -> BTreeMap<u32
         let mut take = true;
         for it in items {
             match it {
-                LineItem::File(n) => take = *n == f.file,
+                LineItem::File(n) => take = String::from_utf8_lossy(n) == String::from_utf8_lossy(&f.file),
                 LineItem::Line(l) => {
                     if take && !(version >= 80 && (*l < f.start || *l > f.end)) {
                         occ.entry(*l).or_default().push(*b);
